@@ -78,6 +78,20 @@ fn canon_pair(v: &serde_json::Value) -> String {
     format!("({},{},{},{},{})", hutil::list(&v[0]["indexes"].as_array().unwrap().iter().map(|x| x.as_u64().unwrap()).collect::<Vec<_>>()), hex(&bytes_of(&v[0]["sigma"])), v[0]["signer_index"], hex(&bytes_of(&v[1][0])), v[1][1])
 }
 
+/// `t` with the character at each of the given CHARACTER positions replaced by a 2-, 3- and 4-byte character (so that
+/// a multi-byte character straddles every byte offset in turn), plus the same characters inserted
+fn non_ascii_variants(t: &str, positions: &[usize]) -> Vec<String> {
+    let chars: Vec<char> = t.chars().collect();
+    let mut out = vec![];
+    for &p in positions {
+        for c in ['\u{e9}', '\u{20ac}', '\u{1f600}'] {
+            if p < chars.len() { let mut v = chars.clone(); v[p] = c; out.push(v.into_iter().collect()); }
+            if p <= chars.len() { let mut v = chars.clone(); v.insert(p, c); out.push(v.into_iter().collect()); }
+        }
+    }
+    out
+}
+
 struct Watch { panics: u64, big: u64, calls: u64 }
 
 // ---- structure-aware mutations: walk the JSON / CBOR tree of an honest encoding ----------------
@@ -117,7 +131,11 @@ fn j_mutations(honest: &J) -> Vec<J> {
                 { let mut b = a.clone(); for _ in 0..300 { b.push(last.clone()); } variants.push(J::Array(b)); }
             }
             J::Number(_) => { for n in [serde_json::json!(1), serde_json::json!(255), serde_json::json!(256), serde_json::json!(-1), serde_json::json!(u64::MAX), serde_json::json!(u64::MAX - 1), serde_json::json!(1u64 << 53), serde_json::json!(1u64 << 32), serde_json::json!(i64::MIN), serde_json::json!(1.5), serde_json::json!(1e300), serde_json::json!(0.0), serde_json::json!(1.0), serde_json::json!("1")] { variants.push(n); } }
-            J::String(t) => { variants.push(serde_json::json!("")); variants.push(serde_json::json!(format!("{}0", t))); variants.push(serde_json::json!(t.chars().skip(1).collect::<String>())); variants.push(serde_json::json!("zz")); variants.push(serde_json::json!(t.repeat(3))); variants.push(serde_json::json!(t.to_uppercase())); }
+            J::String(t) => { variants.push(serde_json::json!("")); variants.push(serde_json::json!(format!("{}0", t))); variants.push(serde_json::json!(t.chars().skip(1).collect::<String>())); variants.push(serde_json::json!("zz")); variants.push(serde_json::json!(t.repeat(3))); variants.push(serde_json::json!(t.to_uppercase()));
+                let n = t.chars().count();
+                let mut pos: Vec<usize> = (0..n.min(70)).collect();
+                pos.extend([n / 2, n.saturating_sub(1), n]);
+                for x in non_ascii_variants(t, &pos) { variants.push(serde_json::json!(x)); } }
             J::Object(o) => {
                 for k in o.keys() { let mut b = o.clone(); b.remove(k); variants.push(J::Object(b)); }
                 { let mut b = o.clone(); b.insert("unknown_field".into(), serde_json::json!(1)); variants.push(J::Object(b)); }
@@ -526,6 +544,17 @@ fn main() {
                 _ => { let p = rng.below(m.len() as u64 + 1) as usize; m.insert(p, b'9'); }
             }
             if let Ok(s) = String::from_utf8(m) { inputs.push(s); }
+        }
+        // characters of 2-4 bytes straddling every byte offset of the first 200 bytes, and a few deeper ones, in the honest
+        // string and in a clearly undecodable one of the same shape (the error path quotes / slices / measures the input)
+        {
+            let n = honest.chars().count();
+            let mut pos: Vec<usize> = (0..n.min(200)).collect();
+            pos.extend([n / 2, n.saturating_sub(2), n.saturating_sub(1), n]);
+            for _ in 0..8 { pos.push(rng.below(n as u64 + 1) as usize); }
+            inputs.extend(non_ascii_variants(honest, &pos));
+            let garbage: String = honest.chars().map(|c| if c.is_ascii_hexdigit() { '7' } else { c }).collect();
+            inputs.extend(non_ascii_variants(&garbage, &pos));
         }
         for s in inputs {
             let ss = s.clone();
